@@ -957,10 +957,14 @@ func (s *session) execOn(m *mtx, verified []byte) (string, bool) {
 		}
 	}
 	if who == "????" {
-		// sender outside the funded accounts (e.g. an unregistered name: the empty account)
-		st, _ := state.GetAccountState(nil, bs.StateDB)
+		// sender outside the key accounts: a name pointing to a contract, or an unregistered name (the empty account)
+		resolved := m.tx.Body.Account
+		if len(resolved) <= types.NameLength {
+			_, resolved = nameInfo(sdb.OpenNewStateDB(best.GetHeader().GetBlocksRootHash()), resolved)
+		}
+		st, _ := state.GetAccountState(resolved, bs.StateDB)
 		if st.Nonce() == m.tx.Body.Nonce {
-			who = "-"
+			who = short(resolved)
 		}
 	}
 	status := "S"
@@ -1517,6 +1521,60 @@ func (s *session) genPoolHit() {
 	s.opBlock(tip, txs, use, "pool-hit")
 }
 
+// genContractName: a name handed to a (stub) contract: its registered OWNER is then the contract's creator while its
+// destination — the account whose nonce and balance a transaction sent in that name uses — is the contract.
+func (s *session) genContractName() {
+	w := s.w
+	rng := s.rng
+	tip := s.bestBlk()
+	D := rng.Intn(nAcct)
+	A := (D + 1 + rng.Intn(nAcct-1)) % nAcct
+	C := (A + 1) % nAcct
+	s.nameSeq++
+	nm := []byte(fmt.Sprintf("verifctrt%03d", s.nameSeq%1000))
+	tx := func(acct []byte, signer int, nonce uint64, rcpt []byte, amt *big.Int, typ types.TxType, payload, cmd, kind string) *mtx {
+		b := &types.TxBody{Nonce: nonce, Account: acct, Recipient: rcpt, Type: typ, ChainIdHash: s.cid}
+		if amt != nil && amt.Sign() > 0 {
+			b.Amount = amt.Bytes()
+		}
+		if payload != "" {
+			b.Payload = []byte(payload)
+		}
+		return s.mk(txSpec{body: b, sig: sigSpec{mode: "k", key: signer}, hash: hashSpec{mode: "self"}, cmd: cmd, kind: kind})
+	}
+	nd := s.nonceAt(tip, w.addrs[D])
+	na := s.nonceAt(tip, w.addrs[A])
+	cAddr := contract.CreateContractID(w.addrs[D], nd+1)
+	dep := tx(w.addrs[D], D, nd+1, nil, nil, types.TxType_DEPLOY, "{}", "d:"+hx(cAddr), "deploy-stub-contract")
+	create := tx(w.addrs[A], A, na+1, []byte(types.AergoName), aergo1, types.TxType_GOVERNANCE,
+		fmt.Sprintf(`{"Name":"v1createName","Args":["%s"]}`, nm), "c:"+hx(nm), "name-create")
+	b1 := s.opBlock(tip, []*mtx{dep, create}, false, "deploy+name-create")
+	if s.bestBlk() != b1 {
+		return
+	}
+	fund := tx(w.addrs[A], A, na+2, cAddr, new(big.Int).Mul(aergo1, big.NewInt(int64(2+rng.Intn(5)))), types.TxType_TRANSFER, "", "", "fund-contract")
+	move := tx(w.addrs[A], A, na+3, []byte(types.AergoName), aergo1, types.TxType_GOVERNANCE,
+		fmt.Sprintf(`{"Name":"v1updateName","Args":["%s","%s"]}`, nm, types.EncodeAddress(cAddr)), "u:"+hx(nm)+":"+hx(cAddr), "name-update-to-contract")
+	b2 := s.opBlock(b1, []*mtx{fund, move}, false, "name-to-contract")
+	if s.bestBlk() != b2 {
+		return
+	}
+	// in the name: signed by the creator D (the registered owner) / by A (who registered the name, owner no more)
+	tD := tx(nm, D, 1, w.addrs[C], big.NewInt(int64(1+rng.Intn(1000))), types.TxType_TRANSFER, "", "", "named-sender-contract-owner")
+	tA := tx(nm, A, 1, w.addrs[C], big.NewInt(7), types.TxType_TRANSFER, "", "", "named-sender-not-owner")
+	s.opAdmit(tD) // the pool verifies against the destination (a contract address is no key): refused
+	s.opBVerify(tD)
+	s.opBVerify(tA)
+	s.opExec(tD)
+	use := rng.Chance(1, 2)
+	s.opBlock(b2, []*mtx{tA}, use, "contract-name-not-owner")
+	b3 := s.opBlock(s.bestBlk(), []*mtx{tD}, use, "contract-name-owner")
+	if s.bestBlk() == b3 && rng.Chance(1, 2) {
+		t2 := tx(nm, D, 2, cAddr, big.NewInt(int64(rng.Intn(50))), types.TxType_CALL, "", "", "named-sender-contract-owner")
+		s.opBlock(b3, []*mtx{t2, dep}, use, "contract-name-owner-again+replayed-deploy")
+	}
+}
+
 func (s *session) runSession(nops int) {
 	s.n = s.w.newNode()
 	defer s.n.close()
@@ -1542,8 +1600,10 @@ func (s *session) runSession(nops int) {
 			s.genBlock()
 		case k < 36:
 			s.genAfterFailing()
-		case k < 41:
+		case k < 40:
 			s.genNameMove()
+		case k < 43:
+			s.genContractName()
 		case k < 51:
 			s.genFork()
 		case k < 56:
